@@ -88,10 +88,13 @@ func parsimonyUPPASS(cur, prev *tree.Node, a align.Alignment, seqs []*AncestralS
 				possibilities = align.IupacCode[c]
 			} else {
 				if c == align.ALL_AMINO {
-					for k := range charToIndex {
-						possibilities = append(possibilities, k)
+					// every character of the alphabet but the last two ('-' and '*'),
+					// whatever the iteration order of the map
+					for k, idx := range charToIndex {
+						if idx < len(charToIndex)-2 {
+							possibilities = append(possibilities, k)
+						}
 					}
-					possibilities = possibilities[:len(possibilities)-2]
 				} else {
 					possibilities = append(possibilities, c)
 				}
